@@ -3,7 +3,6 @@
 package main
 
 import (
-	"encoding/json"
 	"fmt"
 	"regexp"
 	"strconv"
@@ -536,7 +535,7 @@ func c06Run(r *vkit.Run) {
 
 func c06Replay(r *vkit.Run, v vkit.Violation) *vkit.Violation {
 	var in c06Input
-	if err := json.Unmarshal(v.Input, &in); err != nil {
+	if err := vkit.DecodeInput(v, &in); err != nil {
 		r.HarnessError("bad input: %v", err)
 	}
 	return vkit.ReplayOne(r, func() { c06Check(r, in) })
